@@ -331,6 +331,10 @@ func (c *checker) consumers() {
 				}
 				r.Count("consumer_sigverify_posts", 1)
 			}
+			// ---- copies whose signature packet was rewritten where the signature does not cover it
+			// (craft.go).  They may verify; whoever acts on the verdict must then still attribute the
+			// claim to the key it names, never to the key an unhashed issuer subpacket points to.
+			c.craftedConsumers(id, h, k, b, signed, packet, pre, validRows, want)
 		}
 
 		// ---- the signing helper's sign endpoint and builder entry point (rule 1)
@@ -365,6 +369,7 @@ func (c *checker) consumers() {
 	}
 	if c.only == "" {
 		r.Require("consumer_positive_controls", "index:set-attribute", "index:delete", "sigverify:set-attribute", "sigverify:delete")
+		r.Require("consumer_crafted_variants", "unhashed-issuer-appended:other-key", "unhashed-issuer-prepended:other-key", "unhashed-issuer-only:other-key", "unhashed-issuer+fingerprint:other-key")
 		r.Require("consumer_mutation_classes", "payload-flip", "payload-extend", "swap-signer", "resign-other-key", "text-mode-sig", "transplant-sig", "double-sig", "packet-byte", "armor-truncate", "unsigned", "subst", "delete")
 	}
 }
@@ -374,4 +379,115 @@ func truncateStr(s string, n int) string {
 		return s[:n] + "..."
 	}
 	return s
+}
+
+// craftedConsumers hands crafted-signature copies of one genuine claim to the consumers.
+//
+// Oracle: a copy may be refused.  If camli/sig/verify calls it valid, the signer it reports is the
+// key the claim names and the verified data are the claim's fields.  If the index accepts it
+// (writes claim rows), no row it adds mentions the key id of a key that did not sign it, and the
+// signer the index has on record for the claim's camliSigner blob is still that blob's key.
+func (c *checker) craftedConsumers(id string, h http.Handler, k *keyInfo, b consBase, signed string, packet []byte, pre []sto.Blob, validRows []string, want map[string]any) {
+	r := c.r
+	others := c.othersOf(k)
+	vs, err := craftVariants(packet, k, others, len(id))
+	if err != nil {
+		r.Inconclusive(id + ": " + err.Error())
+		return
+	}
+	T := payloadOf(b.J)
+	genuineRef := blob.RefFromString(signed).String()
+	norm := func(rows []string, ref string) map[string]bool {
+		m := map[string]bool{}
+		for _, row := range rows {
+			if p := rowPrefix(row); p == "have" || p == "meta" {
+				continue
+			}
+			m[strings.ReplaceAll(row, ref, genuineRef)] = true
+		}
+		return m
+	}
+	genuine := norm(validRows, genuineRef)
+	pick := map[string]bool{"unhashed-issuer-appended:other-key": true, "unhashed-issuer-prepended:other-key": true, "unhashed-issuer-only:other-key": true,
+		"unhashed-issuer+fingerprint:other-key": true, "unhashed-issuer-fingerprint:other-key": true, "unhashed-issuer-critical:other-key": true,
+		"unhashed-issuer-appended+header-old-2-octet-length:other-key": true, "unhashed-issuer-appended:unknown-key": true,
+		"unhashed-issuer-appended:other-key-2": true, "unhashed-issuer-only:other-key-2": true, "header-old-2-octet-length": true, "unhashed-notation": true}
+	for n, v := range vs {
+		if !pick[v.name] {
+			continue
+		}
+		text := T + sep + encodeSig(v.packet) + tail
+		if _, isValid := c.valid.Load(text); isValid {
+			continue
+		}
+		if !c.allowed(text) {
+			r.Inconclusive(fmt.Sprintf("%s: the harness's own rule does not admit crafted variant %q it built", id, v.name))
+			continue
+		}
+		mid := fmt.Sprintf("%s/crafted/%d", id, n)
+		wit := map[string]any{"case_id": mid, "variant": v.name, "genuine": signed, "mutant_text": text, "mutant_bytes": []byte(text)}
+		r.Note("consumer_crafted_variants", v.name)
+		r.Distinct("cons:" + text)
+
+		// the signing helper's verify endpoint
+		r.Eval(1)
+		code, body := sigPost(h, "camli/sig/verify", "sjson", text)
+		var vres struct {
+			SignatureValid bool           `json:"signatureValid"`
+			SignerKeyId    string         `json:"signerKeyId"`
+			VerifiedData   map[string]any `json:"verifiedData"`
+		}
+		if code == 200 && json.Unmarshal([]byte(body), &vres) == nil && vres.SignatureValid {
+			r.Count("consumer_crafted_sigverify_valid", 1)
+			if vres.SignerKeyId != k.s.KeyID {
+				r.Violation("consumer/sigverify-wrong-signer", fmt.Sprintf("%s: camli/sig/verify reports signerKeyId %q for a claim that names and was signed by %s (%s); only the unsigned part of its signature packet was rewritten (%s)",
+					mid, vres.SignerKeyId, k.name, k.s.KeyID, v.name), wit)
+			} else if !reflect.DeepEqual(vres.VerifiedData, want) {
+				r.Violation("consumer/sigverify-wrong-data", fmt.Sprintf("%s: camli/sig/verify reports data %v for a claim with fields %v", mid, vres.VerifiedData, want), wit)
+			}
+		} else {
+			r.Count("consumer_crafted_sigverify_refused", 1)
+		}
+
+		// the indexer
+		r.Eval(1)
+		rows, err := indexRowsAdded(c.keys, pre, text)
+		if err != nil {
+			r.Inconclusive("consumers: index: " + err.Error())
+			continue
+		}
+		accepted := false
+		for _, row := range rows {
+			if rowPrefix(row) == "claim" {
+				accepted = true
+			}
+		}
+		if !accepted {
+			r.Count("consumer_crafted_index_refused", 1)
+			continue
+		}
+		r.Count("consumer_crafted_index_accepted", 1)
+		bad := ""
+		for _, row := range rows {
+			for _, o := range append(others, &keyInfo{name: "nobody", s: &hw.Signer{KeyID: "DEADBEEF"}}) {
+				if strings.Contains(row, o.s.KeyID) && !strings.Contains(b.J, o.s.KeyID) {
+					bad = fmt.Sprintf("row %q mentions the key id of %s", truncateStr(strings.ReplaceAll(row, "\x00", " = "), 200), o.name)
+				}
+			}
+			if strings.HasPrefix(row, "signerkeyid:"+k.ref) && !strings.HasSuffix(row, "\x00"+k.s.KeyID) {
+				bad = fmt.Sprintf("row %q records another key id for the public key blob of %s (%s)", truncateStr(strings.ReplaceAll(row, "\x00", " = "), 200), k.name, k.s.KeyID)
+			}
+		}
+		if bad != "" {
+			r.Violation("consumer/index-wrong-signer", fmt.Sprintf("%s: the index accepted a %s claim that names and was signed by %s, with the unsigned part of its signature packet rewritten (%s), and attributes it to another key: %s", mid, b.name, k.name, v.name, bad), wit)
+			continue
+		}
+		// evidence only: does the index write the same rows as for the genuine claim (modulo the blob's own ref)?
+		got := norm(rows, blob.RefFromString(text).String())
+		if reflect.DeepEqual(got, genuine) {
+			r.Count("consumer_crafted_index_rows_equal_genuine", 1)
+		} else {
+			r.Count("consumer_crafted_index_rows_differ_from_genuine", 1)
+		}
+	}
 }
